@@ -454,6 +454,21 @@ End Sound.
 (* ---------- at the generated tables ---------- *)
 From OPF Require Import Gen.Metrics_gen Gen.Decorator_gen Model.MetricEval.
 
+(* the full result of the analysis: depth and class of the exact value *)
+Theorem rdepth_gen_sound c m n k c' :
+  rdepth_gen all_metrics_ir c m n = Some (k, c') ->
+  forall u rnd, 0 <= u < 1 -> rnd_rel u rnd ->
+  forall x y, length x = n -> in_dom c x y ->
+  exists fl, metric_rnd rnd m x y = Some fl
+             /\ within u k (metric_value m x y) fl
+             /\ in_cls c' (metric_value m x y).
+Proof.
+  intros E u rnd [U0 U1] REL x y Hn HD.
+  destruct (rdepth_sound_gen u U0 U1 rnd REL all_metrics_ir decorator_params decorator_body
+              (param_default (m_params m)) c m n (k, c') x y E HD Hn) as [fl [Efl [Wfl Cfl]]].
+  exists fl. auto.
+Qed.
+
 (* [k] roundings deep, two-sided and in the closed form *)
 Theorem rdepth_in_sound c m n k :
   rdepth_in c m n = Some k ->
@@ -464,11 +479,17 @@ Theorem rdepth_in_sound c m n k :
              /\ Rabs (fl - metric_value m x y) <= ((1 + u) ^ k - 1) * Rabs (metric_value m x y).
 Proof.
   unfold rdepth_in. destruct (rdepth_gen all_metrics_ir c m n) as [[k0 c']|] eqn:E; [|discriminate].
-  cbn [option_map fst]. intros K. injection K as <-. intros u rnd [U0 U1] REL x y Hn HD.
-  destruct (rdepth_sound_gen u U0 U1 rnd REL all_metrics_ir decorator_params decorator_body
-              (param_default (m_params m)) c m n (k0, c') x y E HD Hn) as [fl [Efl [Wfl _]]].
-  cbn [fst] in Wfl. exists fl. split; [exact Efl|]. split; [exact Wfl|].
+  cbn [option_map fst]. intros K. injection K as <-. intros u rnd HU REL x y Hn HD.
+  destruct (rdepth_gen_sound c m n k0 c' E u rnd HU REL x y Hn HD) as [fl [Efl [Wfl _]]].
+  exists fl. split; [exact Efl|]. split; [exact Wfl|]. destruct HU as [U0 U1].
   now apply (within_abs u U0 U1).
+Qed.
+
+Lemma in_dom_any (x y : list R) n : length x = n -> length y = n -> (1 <= n)%nat -> in_dom Any x y.
+Proof.
+  intros Hx Hy H1. repeat split; try lia.
+  - apply Forall_forall. intros; exact I.
+  - apply Forall_forall. intros; exact I.
 Qed.
 
 Theorem rdepth_sound m n k :
@@ -480,7 +501,19 @@ Theorem rdepth_sound m n k :
              /\ Rabs (fl - metric_value m x y) <= ((1 + u) ^ k - 1) * Rabs (metric_value m x y).
 Proof.
   intros E u rnd HU REL x y Hx Hy H1. apply (rdepth_in_sound Any m n k E u rnd HU REL x y Hx).
-  repeat split; try lia.
-  - apply Forall_forall. intros; exact I.
-  - apply Forall_forall. intros; exact I.
+  now apply (in_dom_any x y n).
+Qed.
+
+(* by Python function name *)
+Theorem rdepth_name_sound f n k :
+  rdepth_name f n = Some k ->
+  exists m, lookup_ir f all_metrics_ir = Some m /\
+  forall u rnd, 0 <= u < 1 -> rnd_rel u rnd ->
+  forall x y, length x = n -> length y = n -> (1 <= n)%nat ->
+  exists fl, metric_rnd rnd m x y = Some fl
+             /\ within u k (metric_value m x y) fl
+             /\ Rabs (fl - metric_value m x y) <= ((1 + u) ^ k - 1) * Rabs (metric_value m x y).
+Proof.
+  unfold rdepth_name. destruct (lookup_ir f all_metrics_ir) as [m|]; [|discriminate].
+  intros E. exists m. split; [reflexivity|]. now apply rdepth_sound.
 Qed.
